@@ -2,7 +2,7 @@
 //! properties: C03 C14
 //! note: process_onion_failure_inner: what the sender learns from a decoded failure -- a failure that did not come from the final node always blames a node or a channel next to the node that sent it (so the retry avoids it), and the payment is reported as failed permanently only on the final node's word
 //! trusted: R15 (deep slice): the classification block of process_onion_failure_inner (from reading the code's debug field to the FailureLearnings value) verbatim as a function of (error_code, is_from_final_non_blinded_node, route_hop, failing_route_hop, err_packet); peeling the failure onion, the HMAC test and attribution-data handling before it are dropped and not claimed here (hold times: unit u14b)
-//! trusted: env: LocalHTLCFailureReason is a three-variant skeleton (the two variants the block names + Other(code)); its predicates is_badonion / is_node / is_permanent / is_temporary / is_recipient_failure / get_onion_debug_field are external_body with unconstrained answers (any code table); ErrorHop / RouteHop / TrampolineHop / FailureLearnings are the function-local types re-declared (ErrorHop::{pubkey, short_channel_id} external_body with the bodies' meaning); NetworkUpdate is extracted; PublicKey opaque Copy; R3: log statements removed; R8: `v.get(a..b)` on the failure message -> get_range (Some iff a <= b <= len), `u16::from_be_bytes(s.try_into().expect(..))` -> be16 (unconstrained value)
+//! trusted: env: LocalHTLCFailureReason is a three-variant skeleton (the two variants the block names + Other(code)); its predicates is_badonion / is_node / is_permanent / is_temporary / get_onion_debug_field are external_body answering uninterpreted functions of the code (any code table), is_recipient_failure unconstrained; ErrorHop / RouteHop / TrampolineHop / FailureLearnings are the function-local types re-declared (ErrorHop::{pubkey, short_channel_id} external_body with the bodies' meaning); NetworkUpdate is extracted; PublicKey opaque Copy; R3: log statements removed; R8: `v.get(a..b)` on the failure message -> get_range (Some iff a <= b <= len, then the bytes a..b), `u16::from_be_bytes(s.try_into().expect(..))` -> be16 (unconstrained value)
 //! assume: the path has no trampoline hops: the hop that sent the failure and the failing hop are ErrorHop::RouteHop; when the failure is from the final node the failing hop is that hop (how the caller chooses failing_route_hop)
 //! trusted: assume_specification for core::cmp::max / core::cmp::min (std definitions): present in every unit so that a change that introduces them is verified instead of being rejected by the tool
 //! trusted: closing_hands_back: ChannelContext::force_shutdown: the match inside the loop that drains the holding cell, verbatim as a function of one held update (R15 deep slice; enum HTLCUpdateAwaitingACK extracted over skeleton field types); the second loop (HTLCs announced only in a blocked monitor update): the LatestCounterpartyCommitment arm's scan of the update's two HTLC lists (R6: `A.iter().map(..).chain(B.iter().map(..)).any(..)` as two index loops carrying the three closure bodies verbatim; //@oneof: a scan of a single list `E.iter().any(..)` is accepted as an alternative shape and verified against the same contract); the LatestCounterpartyCommitmentTXInfo arm is not sliced
@@ -19,13 +19,18 @@ pub assume_specification<T: core::cmp::Ord>[core::cmp::min::<T>](a: T, b: T) -> 
 //@extract lightning/src/routing/gossip.rs :: enum NetworkUpdate
 //@end
 pub enum LocalHTLCFailureReason { FinalIncorrectCLTVExpiry, FinalIncorrectHTLCAmount, Other(u16) }
+pub uninterp spec fn code_badonion(c: LocalHTLCFailureReason) -> bool;
+pub uninterp spec fn code_node(c: LocalHTLCFailureReason) -> bool;
+pub uninterp spec fn code_permanent(c: LocalHTLCFailureReason) -> bool;
+pub uninterp spec fn code_temporary(c: LocalHTLCFailureReason) -> bool;
+pub uninterp spec fn code_debug_size(c: LocalHTLCFailureReason) -> usize;
 impl LocalHTLCFailureReason {
-    #[verifier::external_body] pub fn is_badonion(&self) -> (r: bool) { unimplemented!() }
-    #[verifier::external_body] pub fn is_node(&self) -> (r: bool) { unimplemented!() }
-    #[verifier::external_body] pub fn is_permanent(&self) -> (r: bool) { unimplemented!() }
-    #[verifier::external_body] pub fn is_temporary(&self) -> (r: bool) { unimplemented!() }
+    #[verifier::external_body] pub fn is_badonion(&self) -> (r: bool) ensures r == code_badonion(*self) { unimplemented!() }
+    #[verifier::external_body] pub fn is_node(&self) -> (r: bool) ensures r == code_node(*self) { unimplemented!() }
+    #[verifier::external_body] pub fn is_permanent(&self) -> (r: bool) ensures r == code_permanent(*self) { unimplemented!() }
+    #[verifier::external_body] pub fn is_temporary(&self) -> (r: bool) ensures r == code_temporary(*self) { unimplemented!() }
     #[verifier::external_body] pub fn is_recipient_failure(&self) -> (r: bool) { unimplemented!() }
-    #[verifier::external_body] pub fn get_onion_debug_field(&self) -> (r: (&'static str, usize)) ensures r.1 <= 32 { unimplemented!() }
+    #[verifier::external_body] pub fn get_onion_debug_field(&self) -> (r: (&'static str, usize)) ensures r.1 <= 32, r.1 == code_debug_size(*self) { unimplemented!() }
 }
 pub struct RouteHop { pub short_channel_id: u64, pub pubkey: PublicKey }
 pub struct TrampolineHop { pub pubkey: PublicKey }
@@ -37,8 +42,13 @@ impl<'a> ErrorHop<'a> {
 pub struct DecodedOnionErrorPacket { pub failuremsg: Vec<u8> }
 pub struct FailureLearnings { pub network_update: Option<NetworkUpdate>, pub short_channel_id: Option<u64>, pub payment_failed_permanently: bool, pub failed_within_blinded_path: bool }
 #[verifier::external_body] pub fn get_range(v: &Vec<u8>, r: core::ops::Range<usize>) -> (o: Option<&[u8]>)
-    ensures o is Some <==> (r.start <= r.end && r.end <= v@.len()) { unimplemented!() }
-#[verifier::external_body] pub fn be16(s: &[u8]) -> (r: u16) { unimplemented!() }
+    ensures o is Some <==> (r.start <= r.end && r.end <= v@.len()), o is Some ==> o->Some_0@ == v@.subrange(r.start as int, r.end as int) { unimplemented!() }
+pub uninterp spec fn be16_spec(s: Seq<u8>) -> u16;
+#[verifier::external_body] pub fn be16(s: &[u8]) -> (r: u16) ensures r == be16_spec(s@) { unimplemented!() }
+// a temporary failure carries, after its code (2 bytes) and its debug field, a 2-byte length and that many bytes of channel_update
+pub open spec fn carries_a_whole_channel_update(msg: Seq<u8>, debug_size: int) -> bool {
+    debug_size + 4 <= msg.len() && debug_size + 4 + be16_spec(msg.subrange(debug_size + 2, debug_size + 4)) as int <= msg.len()
+}
 pub open spec fn scid_of(h: ErrorHop) -> u64 { match h { ErrorHop::RouteHop(rh) => rh.short_channel_id, ErrorHop::TrampolineHop(_) => 0 } }
 
 //@extract lightning/src/ln/onion_utils.rs :: fn process_onion_failure_inner
@@ -67,8 +77,18 @@ pub open spec fn scid_of(h: ErrorHop) -> u64 { match h { ErrorHop::RouteHop(rh) 
     r.short_channel_id is Some ==> (r.short_channel_id->Some_0 == scid_of(*route_hop) || r.short_channel_id->Some_0 == scid_of(*failing_route_hop)),
     r.network_update is Some && r.network_update->Some_0 is ChannelFailure ==> r.network_update->Some_0->short_channel_id == scid_of(*failing_route_hop),
     r.network_update is Some && r.network_update->Some_0 is NodeFailure ==> r.network_update->Some_0->node_id == route_hop->RouteHop_0.pubkey,
+//@ensures P C03,C14 a-temporary-failure-is-charged-to-the-channel-only-if-a-whole-channel-update-follows-its-code-and-debug-field-and-otherwise-to-the-node-that-sent-it
+    !code_badonion(error_code) && !code_node(error_code) && !code_permanent(error_code) && code_temporary(error_code) ==>
+        (carries_a_whole_channel_update(err_packet.failuremsg@, code_debug_size(error_code) as int)
+            ==> r.network_update == Some(NetworkUpdate::ChannelFailure { short_channel_id: scid_of(*failing_route_hop), is_permanent: false }) && r.short_channel_id == Some(scid_of(*failing_route_hop)))
+        && (!carries_a_whole_channel_update(err_packet.failuremsg@, code_debug_size(error_code) as int)
+            ==> r.network_update == Some(NetworkUpdate::NodeFailure { node_id: route_hop->RouteHop_0.pubkey, is_permanent: true }) && r.short_channel_id == Some(scid_of(*route_hop))),
 //@ensures P C03 the-payment-is-reported-as-failed-permanently-only-on-the-final-nodes-word
     r.payment_failed_permanently ==> is_from_final_non_blinded_node,
+//@mutant channel_update_length_read_from_the_debug_field
+    err_packet.failuremsg.get(debug_field_size + 2..debug_field_size + 4)
+//@with
+    err_packet.failuremsg.get(2..4)
 //@mutant recipient_only_code_trusted_from_any_hop
     let payment_failed = error_code.is_recipient_failure() && is_from_final_non_blinded_node;
 //@with
